@@ -260,6 +260,9 @@ def count_errors(y: np.ndarray, home_streak_min: int,
                         is_in_home_streak = False
                         home_streak_len = 0
 
+            if team_1 == team_2:  # a team cannot play against itself: this
+                continue  # was already counted above, there is no pairing
+
             # now we need to check for the game separation difference
             idx: int = ((team_1 * (team_1 - 1) // 2) + team_2) \
                 if team_1 > team_2 \
